@@ -1044,7 +1044,7 @@ impl Hist {
                 let auth = r.pick(&[0u8, 0, 0, 0, 0, 0, 1, 2]);
                 format!("H xliq {} {} {} {} {} {} {} {}", ver, id, b(inc), liq, r.pick(&[0u8, 0, 1, 2]), fa, fb, auth)
             }
-            45 => if r.chance(1, 4) { format!("H xsub grid 0 {} 0", id) } else { format!("H xsub {} {} {} {}", if r.chance(1, 2) { "swap" } else if r.chance(1, 2) { "liq" } else { "dec" }, r.below(15), id, if r.chance(1, 2) { 0 } else { 1 + r.below(5) }) },
+            45 => if r.chance(1, 4) { format!("H xsub grid 0 {} 0", id) } else { format!("H xsub {} {} {} {}", if r.chance(1, 2) { "swap" } else if r.chance(1, 2) { "liq" } else { "dec" }, r.below(15), id, if r.chance(1, 2) { 0 } else { 1 + r.below(6) }) },
             46 => {
                 // position instructions of the Anchor path through the entrypoint (read-only on the history)
                 let kind = r.pick(&["upd", "cf", "cf", "close", "reset", "reset"]);
@@ -1173,7 +1173,7 @@ impl Hist {
                 } else {
                     0
                 };
-                let auth = r.pick(&[0u8, 0, 0, 0, 0, 1, 2]);
+                let auth = r.pick(&[0u8, 0, 0, 0, 0, 1, 2, 3, 4]);
                 format!("H xrew {} {} {} {} {} {} {} {}", kind, if r.chance(1, 2) { 1 } else { 2 }, idx, id, auth, value, fa, fb)
             }
             49 => {
